@@ -184,6 +184,26 @@ def start_injector(w, target, workload, src='src'):
     return w.env.process(injector(w, target, wl, src))
 
 
+def stretch_workload(wl, n):
+    """A long life from a short pattern: the workload repeated, each copy shifted behind the previous one (the same
+    bursts, gaps and coincidences over and over, thousands of packets in all)."""
+    if not wl:
+        return wl
+    t0 = min(x[0] for x in wl)
+    span = max(x[0] for x in wl) - t0
+    period = float(int(span) + 1)
+    out, k = [], 0
+    while len(out) < n:
+        for x in wl:
+            y = list(x)
+            y[0] = x[0] + k * period
+            if len(y) > 4:
+                y[4] = None          # (re-entering Packet objects refer to indices of the short pattern)
+            out.append(y)
+        k += 1
+    return out[:n]
+
+
 def close(a, b, mode):
     if mode == 'FLOAT':
         return abs(a - b) <= 1e-9 * max(1.0, abs(a), abs(b))
